@@ -436,6 +436,29 @@ pub fn exec_line(sess: &mut Session, line: &str) -> String {
             let x = e.to_msi();
             V::of_msi(&x.eval(&r)).tok()
         }
+        "eval2" => {
+            // eval2 <row1> <row2> <expr>: ONE expression object, evaluated on one row, then on another
+            let (row1, n1) = parse_row(&toks[1..]).unwrap();
+            let (row2, n2) = parse_row(&toks[1 + n1..]).unwrap();
+            let (e, _) = E::parse(&toks[1 + n1 + n2..]).unwrap();
+            let mk = |row: &Vec<(String, V)>| {
+                let cols: Vec<msi::Column> = row
+                    .iter()
+                    .map(|(name, v)| match v {
+                        V::Str(_) => msi::Column::build(name.as_str()).nullable().string(0),
+                        _ => msi::Column::build(name.as_str()).nullable().int32(),
+                    })
+                    .collect();
+                let vals: Vec<msi::Value> = row.iter().map(|(_, v)| v.to_msi()).collect();
+                msi::verif::make_row(cols, vals)
+            };
+            let (r1, r2) = (mk(&row1), mk(&row2));
+            let x = e.to_msi();
+            let a = V::of_msi(&x.eval(&r1)).tok();
+            let b = V::of_msi(&x.eval(&r2)).tok();
+            let c = V::of_msi(&x.eval(&r1)).tok();
+            format!("{a} {b} {c}")
+        }
         "fmt" => {
             let (e, _) = E::parse(&toks[1..]).unwrap();
             hex_of_str(&e.to_msi().to_string())
@@ -906,6 +929,13 @@ pub fn exec_line(sess: &mut Session, line: &str) -> String {
             let mut pkg =
                 msi::Package::create(msi::PackageType::Installer, Cursor::new(Vec::new()))
                     .unwrap();
+            if toks.len() >= 5 {
+                // text in the string properties stored before the creation time, under a code page
+                let text = str_of_hex(toks[4]).unwrap();
+                pkg.summary_info_mut().set_codepage(cp_by_name(toks[3]).unwrap());
+                pkg.summary_info_mut().set_author(text.clone());
+                pkg.summary_info_mut().set_subject(text);
+            }
             pkg.summary_info_mut().set_creation_time(t);
             let cur = pkg.into_inner().unwrap();
             let pkg = msi::Package::open(cur).unwrap();
